@@ -2,7 +2,7 @@
 
 PROP = {
     "pkg": "internal/dnsforward",
-    "files": ["dnsforward/common_world_test.go", "dnsforward/c01_test.go", "dnsforward/c16_test.go"],
+    "files": ["dnsforward/common_world_test.go", "dnsforward/c01_test.go", "dnsforward/c16_test.go", "dnsforward/c16_history_test.go"],
     "level": "exploration",
     "technique": "property-based testing (rapid): grammar-generated server names, DoH paths and Host headers against a "
                  "reference extraction function written from the statement, plus universal validity invariants",
@@ -12,13 +12,18 @@ PROP = {
                   "check). Universal invariants hold for every case incl. ambiguous ones: a ClientID appears only on "
                   "DoH/DoT/DoQ, is a lower-case valid label, equals the single extra path segment or left-most label, "
                   "and a failed extraction answers SERVFAIL. TestVFC16EndToEnd shows the extracted id is the one the "
-                  "request is processed with (a persistent client keyed by that ClientID flips the filtering verdict).",
+                  "request is processed with (a persistent client keyed by that ClientID flips the filtering verdict). "
+                  "TestVFC16History runs generated histories on a started server over real sockets (DoT handshakes with "
+                  "drawn server names, plain UDP/TCP, Server.Reconfigure in between) and requires every request to be "
+                  "attributed (at the per-request client-settings callback) to the ClientID it carries itself, whatever "
+                  "was served before.",
     "level_note": "Server names whose domain part differs only in letter case from the configured name, and the "
                   "empty-label form '.<server name>', are tagged ambiguous (the statement does not decide them); "
                   "malformed Host headers are not generated.",
     "tests": [
         ("TestVFC16Extract", (30000, 150000)),
         ("TestVFC16EndToEnd", (300, 1000)),
+        ("TestVFC16History", (24, 200)),
     ],
     "shards": (2, 16),
     "workers": (4, 16),
